@@ -174,4 +174,167 @@ CASES = {
         ('    elif len(value) == 0:\n',
          '    elif len(value.strip()) == 0:\n'),
     ]),
+    # ---- red team C (redteam/C: normalisation / canonicalisation layer, alias and evaluation models) ----
+    'C1': ('C17', 'structure/segments.py', [
+        ('    if (indices < 0).any():\n        raise ValueError("This function does not support negative indices")\n    if (indices >= length).any():\n        index = np.min(np.where(indices >= length)[0])\n        raise ValueError(\n            f"Index {index} is out of range for an atom array with length {length}"\n        )\n\n    return np.searchsorted(starts, indices, side="right") - 1\n',
+         '    import contextlib\n    with contextlib.suppress(ValueError):\n        if (indices < 0).any():\n            raise ValueError("This function does not support negative indices")\n        if (indices >= length).any():\n            index = np.min(np.where(indices >= length)[0])\n            raise ValueError(\n                f"Index {index} is out of range for an atom array with length {length}"\n            )\n\n    return np.searchsorted(starts, indices, side="right") - 1\n'),
+    ]),
+    'C2': ('C17', 'structure/residues.py', [
+        ('def get_residue_starts(array, add_exclusive_stop=False):\n',
+         'def _starts_of(mask, _n_atoms):\n    return np.where(mask)[0] + 1\n\n\ndef get_residue_starts(array, add_exclusive_stop=False):\n'),
+        ('    residue_starts = np.where(residue_change_mask)[0] + 1\n',
+         '    residue_starts = _starts_of(residue_change_mask, residue_change_mask.fill(True))\n'),
+    ]),
+    'C3': ('C17', 'structure/residues.py', [
+        ('def get_residue_starts(array, add_exclusive_stop=False):\n',
+         'def _starts_of(mask):\n    return np.where(mask)[0] + 1\n\n\ndef get_residue_starts(array, add_exclusive_stop=False):\n'),
+        ('    residue_starts = np.where(residue_change_mask)[0] + 1\n',
+         '    def _starts_of(mask):\n        return np.where(mask)[0]\n\n    residue_starts = _starts_of(residue_change_mask)\n'),
+    ]),
+    'C3b': ('C17', 'structure/residues.py', [
+        ('def get_residue_starts(array, add_exclusive_stop=False):\n',
+         'def _starts_of(mask):\n    return np.where(mask)[0] + 1\n\n\ndef get_residue_starts(array, add_exclusive_stop=False, _starts_of=np.flatnonzero):\n'),
+        ('    residue_starts = np.where(residue_change_mask)[0] + 1\n',
+         '    residue_starts = _starts_of(residue_change_mask)\n'),
+    ]),
+    'C4': ('C01', 'structure/atoms.py', [
+        ('    def _del_element(self, index):\n',
+         '    def _without_atoms(self, coord, index):\n        return np.delete(coord, index, axis=-2)\n\n    def _del_element(self, index):\n'),
+        ('            self._coord = np.delete(self._coord, index, axis=-2)',
+         '            self._coord = self._without_atoms(self._coord, index)'),
+        ('    def __init__(self, depth, length):\n        super().__ini',
+         '    def _without_atoms(self, coord, index):\n        return np.delete(coord, index, axis=0)\n\n    def __init__(self, depth, length):\n        super().__ini'),
+    ]),
+    'C5': ('C01', 'structure/atoms.py', [
+        ('    def __init__(self, length):\n        """\n        Create the annotation arrays\n        """\n',
+         '    _ATOM_AXIS = -2\n\n    def __init__(self, length):\n        """\n        Create the annotation arrays\n        """\n'),
+        ('            self._coord = np.delete(self._coord, index, axis=-2)',
+         '            self._coord = np.delete(self._coord, index, axis=self._ATOM_AXIS)'),
+        ('    def __init__(self, depth, length):\n        super().__ini',
+         '    _ATOM_AXIS = 0\n\n    def __init__(self, depth, length):\n        super().__ini'),
+    ]),
+    'C6': ('C04', 'structure/io/pdbx/convert.py', [
+        ('_proteinseq_type_list = ["polypeptide(D)", "polypeptide(L)"]\n',
+         '_COORD_COLUMNS = ["Cartn_x", "Cartn_y", "Cartn_z"]\n_COORD_COLUMNS.reverse()\n_proteinseq_type_list = ["polypeptide(D)", "polypeptide(L)"]\n'),
+        ('        atoms.coord[:, 0] = model_atom_site["Cartn_x"].as_array(np.float32)\n        atoms.coord[:, 1] = model_atom_site["Cartn_y"].as_array(np.float32)\n        atoms.coord[:, 2] = model_atom_site["Cartn_z"].as_array(np.float32)\n',
+         '        for dim, column_name in enumerate(_COORD_COLUMNS):\n            atoms.coord[:, dim] = model_atom_site[column_name].as_array(np.float32)\n'),
+    ]),
+    'C6b': ('C04', 'structure/io/pdbx/convert.py', [
+        ('_proteinseq_type_list = ["polypeptide(D)", "polypeptide(L)"]\n',
+         '_COORD_COLUMNS = ["Cartn_x", "Cartn_y", "Cartn_z"]\n_proteinseq_type_list = ["polypeptide(D)", "polypeptide(L)"]\n'),
+        ('        atoms.coord[:, 0] = model_atom_site["Cartn_x"].as_array(np.float32)\n        atoms.coord[:, 1] = model_atom_site["Cartn_y"].as_array(np.float32)\n        atoms.coord[:, 2] = model_atom_site["Cartn_z"].as_array(np.float32)\n',
+         '        for dim, column_name in enumerate(_COORD_COLUMNS):\n            atoms.coord[:, dim] = model_atom_site[column_name].as_array(np.float32)\n        _COORD_COLUMNS.append(_COORD_COLUMNS.pop(0))\n'),
+    ]),
+    'C7': ('C16', 'structure/superimpose.py', [
+        ('    mob_coord = _reshape_to_3d(coord(mobile))\n',
+         '    for mobile in (mobile, fixed):\n        assert mobile is not None\n    mob_coord = _reshape_to_3d(coord(mobile))\n'),
+    ]),
+    'C8': ('C16', 'structure/superimpose.py', [
+        ('    v[reflected_mask, :, -1] *= -1\n    matrices = np.matmul(v, w)\n',
+         '    u = v\n    m = u @ w\n    v[reflected_mask, :, -1] *= -1\n    matrices = m\n'),
+    ]),
+    'C9': ('C14', 'structure/celllist.pyx', [
+        ('        cdef float32 sq_dist\n',
+         '        cdef float32 sq_dist\n        cdef int whole_sq_dist\n'),
+        ('                    if sq_dist <= sq_radius:\n',
+         '                    whole_sq_dist = sq_dist\n                    if whole_sq_dist <= sq_radius:\n'),
+    ]),
+    'C10': ('C11', 'sequence/align/cigar.py', [
+        ('        elif op == CigarOp.SOFT_CLIP:\n',
+         '        elif op == CigarOp.SOFT_CLIP or op == 5:\n'),
+    ]),
+    'C11': ('C11', 'sequence/align/cigar.py', [
+        ('_str_to_op = {\n',
+         '# Does the operation consume bases of the query (segment) sequence?\n_CONSUMES_QUERY = {\n    CigarOp.MATCH: True,\n    CigarOp.INSERTION: True,\n    CigarOp.DELETION: False,\n    CigarOp.INTRON: False,\n    CigarOp.SOFT_CLIP: True,\n    CigarOp.HARD_CLIP: False,\n    CigarOp.PADDING: False,\n    CigarOp.EQUAL: True,\n    CigarOp.DIFFERENT: True,\n    CigarOp.SOFT_CLIP: False,\n}\n\n_str_to_op = {\n'),
+        ('            clip_mask[i : i + length] = False\n            seg_pos += length\n',
+         '            clip_mask[i : i + length] = False\n            if _CONSUMES_QUERY[op]:\n                seg_pos += length\n'),
+    ]),
+    'C12': ('C14', 'structure/celllist.pyx', [
+        ('        cdef int* list_ptr\n',
+         '        cdef int* list_ptr\n        cdef int* k_ptr\n'),
+        ('                                    list_ptr = <int*>cells[adj_i, adj_j, adj_k]\n',
+         '                                    k_ptr = &adj_k\n                                    k_ptr[0] = adj_k + 1\n                                    list_ptr = <int*>cells[adj_i, adj_j, adj_k]\n'),
+    ]),
+    'C13': ('C14', 'structure/celllist.pyx', [
+        ('        # Get indices for adjacent atoms, based on a cell radius\n        all_indices = self._get_atoms_in_cells(\n            coord, cell_radii, is_multi_radius',
+         '        sq_radii[:] = np.asarray(sq_radii) * 2\n        # Get indices for adjacent atoms, based on a cell radius\n        all_indices = self._get_atoms_in_cells(\n            coord, cell_radii, is_multi_radius'),
+    ]),
+    'C13b': ('C14', 'structure/celllist.pyx', [
+        ('        if is_multi_radius:\n            sq_radii = radius * radius\n',
+         '        radius = radius * 2\n        if is_multi_radius:\n            sq_radii = radius * radius\n'),
+    ]),
+    'C14': ('C10', 'sequence/align/selector.pyx', [
+        ('        self._threshold = permutation_offset + permutation_range / compression\n',
+         "        self._threshold = permutation_offset + permutation_range / compression\n        setattr(self, '_threshold', permutation_range / compression)\n"),
+    ]),
+    'C14b': ('C10', 'sequence/align/selector.pyx', [
+        ('        self._threshold = permutation_offset + permutation_range / compression\n',
+         '        self._threshold = permutation_offset + permutation_range / compression\n        self.rescale(permutation_offset)\n\n    def rescale(self, offset):\n        self._threshold = self._threshold - offset\n'),
+    ]),
+    'C15': ('C17', 'structure/residues.py', [
+        ('    residue_starts = np.where(residue_change_mask)[0] + 1\n',
+         '    residue_starts = np.where(residue_change_mask)[0] + 1\n    view = residue_starts[:]\n    view += 1\n'),
+    ]),
+    'C15b': ('C17', 'structure/residues.py', [
+        ('    residue_starts = np.where(residue_change_mask)[0] + 1\n',
+         '    residue_starts = np.where(residue_change_mask)[0] + 1\n    def _shift():\n        residue_starts[:] = residue_starts + 1\n    _shift()\n'),
+    ]),
+    'C15c': ('C17', 'structure/residues.py', [
+        ('    residue_starts = np.where(residue_change_mask)[0] + 1\n',
+         '    residue_starts = np.where(residue_change_mask)[0] + 1\n    _ = residue_starts.clip(3, None, residue_starts)\n'),
+    ]),
+    'C15d': ('C17', 'structure/residues.py', [
+        ('    residue_starts = np.where(residue_change_mask)[0] + 1\n',
+         '    residue_starts = np.where(residue_change_mask)[0] + 1\n    _ = np.copyto(residue_starts, residue_starts + 1)\n'),
+    ]),
+    'C16': ('C04', 'structure/io/pdbx/convert.py', [
+        ('    block = _get_block(pdbx_file, data_block)\n\n    extra_fields = set() if extra_fields is None else set(extra_fields)\n',
+         '    block, extra_fields = _get_block(pdbx_file, data_block), ([] if extra_fields is None else extra_fields)\n'),
+    ]),
+    'C16b': ('C04', 'structure/io/pdbx/convert.py', [
+        ('    block = _get_block(pdbx_file, data_block)\n\n    extra_fields = set() if extra_fields is None else set(extra_fields)\n',
+         '    block = _get_block(pdbx_file, data_block)\n\n    fields = [] if extra_fields is None else extra_fields\n'),
+        ('    _fill_annotations(atoms, model_atom_site, extra_fields, use_author_fields)\n',
+         '    def _fill():\n        _fill_annotations(atoms, model_atom_site, fields, use_author_fields)\n    _fill()\n'),
+    ]),
+    'C16c': ('C04', 'structure/io/pdbx/convert.py', [
+        ('    block = _get_block(pdbx_file, data_block)\n\n    extra_fields = set() if extra_fields is None else set(extra_fields)\n',
+         '    block = _get_block(pdbx_file, data_block)\n\n    opts = [[] if extra_fields is None else extra_fields]\n'),
+        ('    _fill_annotations(atoms, model_atom_site, extra_fields, use_author_fields)\n',
+         '    _fill_annotations(atoms, model_atom_site, opts[0], use_author_fields)\n'),
+    ]),
+    'C16d': ('C04', 'structure/io/pdbx/convert.py', [
+        ('    block = _get_block(pdbx_file, data_block)\n\n    extra_fields = set() if extra_fields is None else set(extra_fields)\n',
+         '    block = _get_block(pdbx_file, data_block)\n\n    if (fields := extra_fields) is None:\n        fields = []\n'),
+        ('    _fill_annotations(atoms, model_atom_site, extra_fields, use_author_fields)\n',
+         '    _fill_annotations(atoms, model_atom_site, fields, use_author_fields)\n'),
+    ]),
+    'C16e': ('C04', 'structure/io/pdbx/convert.py', [
+        ('    block = _get_block(pdbx_file, data_block)\n\n    extra_fields = set() if extra_fields is None else set(extra_fields)\n',
+         '    block = _get_block(pdbx_file, data_block)\n\n    extra_fields = (lambda x: x)([] if extra_fields is None else extra_fields)\n'),
+    ]),
+    'C17': ('C05', 'structure/io/pdbx/compress.py', [
+        ('def _compress_column(bcif_column, float_tolerance):\n',
+         'def _compress_column(bcif_column, float_tolerance):\n    float_tolerance = 1e-6\n'),
+    ]),
+    'C17b': ('C05', 'structure/io/pdbx/compress.py', [
+        ('def _compress_column(bcif_column, float_tolerance):\n',
+         'def _compress_column(bcif_column, float_tolerance):\n    for float_tolerance in (1e-6,):\n        pass\n'),
+    ]),
+    'C18': ('C05', 'structure/io/pdbx/bcif.py', [
+        ('            array = self._data.array.astype(dtype, copy=True)\n            if masked_value is None:\n',
+         '            array = self._data.array.astype(dtype, copy=dtype != self._data.array.dtype)\n            if masked_value is None:\n'),
+    ]),
+    'C18b': ('C05', 'structure/io/pdbx/bcif.py', [
+        ('            array = self._data.array.astype(dtype, copy=True)\n            if masked_value is None:\n',
+         '            array = np.array(self._data.array, dtype=dtype, copy=None)\n            if masked_value is None:\n'),
+    ]),
+    'C19': ('C20', 'application/application.py', [
+        ('            if timeout is not None and time.time() - self._start_time > timeout:\n',
+         '            if bool(timeout) and time.time() - self._start_time > timeout:\n'),
+    ]),
+    'C19b': ('C20', 'application/application.py', [
+        ('            if timeout is not None and time.time() - self._start_time > timeout:\n',
+         '            if (timeout or 0) > 0 and time.time() - self._start_time > timeout:\n'),
+    ]),
 }
